@@ -273,7 +273,11 @@ def rule_range(ctx):
     ctx.rule('C17.range', 'a loop emitting one command per id of an allocated block iterates exactly range(address, address + size)')
     f = ctx.repo.func('sc3.synth.server:Server._free_all_buffers')
     loops = [s for s in walk_local(f.node) if isinstance(s, ast.For) and isinstance(s.iter, ast.Call) and norm(s.iter.func) == 'range']
-    ctx.require(len(loops) == 1, 'C17.range', '_free_all_buffers per-id loop not found')
+    if len(loops) != 1:
+        ctx.ob('C17.range', f'{f.fq}:per-id-loop', False,
+               'a block of the buffer allocator covers `size` buffer numbers (new_consecutive): _free_all_buffers must emit one /b_free '
+               'per number of every block, i.e. loop over range(address, address + size); no such loop is left', f.node, f.module)
+        return
     it = loops[0].iter
     blk = None
     for p in U.parent_chain(loops[0]):
@@ -432,6 +436,9 @@ def run(ctx):
 
 
 MUTANTS = [
+    dict(rule='C17.range', name='free_all emits one /b_free per block (seed C17-g)', file='sc3/synth/server.py',
+         old="            for i in range(block.address, block.address + block.size):\n                bundle.append(['/b_free', i])",
+         new="            bundle.append(['/b_free', block.address])"),
     dict(rule='C17.pair', name='Recorder frees its buffer on the server only (fix reverted)', file='sc3/synth/recorder.py',
          old="            buf._uncache()\n            self._server._buffer_allocator.free(buf.bufnum)\n            buf._bufnum = None\n", new=""),
     dict(rule='C17.guard', name='Buffer.read without the freed guard (fix reverted)', file='sc3/synth/buffer.py',
